@@ -3,6 +3,7 @@ package runner
 import (
 	"context"
 	"fmt"
+	"sort"
 	"sync"
 	"time"
 
@@ -104,11 +105,18 @@ func init() {
 			}
 			if d := oracle.Equal(res[i], solo[i], tol); d != "" {
 				_, expr, _ := ExprType(a.Query)
-				kc := &core.Case{Query: a.Query, Series: c.Series, Start: a.Start, End: a.End, Step: a.Step, Lookback: c.Lookback, QLookback: a.QLookback, Shuffle: c.Shuffle}
-				if expr != nil && TopkAmbiguous(kc, expr, st) {
+				// the tie analysis looks at the data the engines see: in the time-split mode the
+				// partitions hold less than the case's series (pause after the cut)
+				seen, seenStore := c.Series, st
+				if c.Mode == "dist-timesplit" {
+					seen = mergedPartitions(Partition(c))
+					seenStore = memstore.New(seen)
+				}
+				kc := &core.Case{Query: a.Query, Series: seen, Start: a.Start, End: a.End, Step: a.Step, Lookback: c.Lookback, QLookback: a.QLookback, Shuffle: c.Shuffle}
+				if expr != nil && TopkAmbiguous(kc, expr, seenStore) {
 					continue
 				}
-				if id := knownDifferential(c, a.Query, c.Series, a.Start, a.End, a.Step); id != "" {
+				if id := knownDifferential(c, a.Query, seen, a.Start, a.End, a.Step); id != "" {
 					continue
 				}
 				if c.Mode == "dist" || c.Mode == "dist-timesplit" {
@@ -143,4 +151,28 @@ func init() {
 		nt := len(qs) >= 4 && len(shapes) >= 2 && maxOverlap >= 2
 		return core.Verdict{Status: "ok", Nontrivial: nt, Features: feats, Evals: 2 * len(qs)}
 	})
+}
+
+// mergedPartitions returns the series the remote engines hold together: series with the
+// same label set on several engines (time-split mode) become one series.
+func mergedPartitions(parts []*memstore.Store) []core.Series {
+	byKey := map[string]int{}
+	var out []core.Series
+	for _, p := range parts {
+		for _, s := range p.Dump() {
+			k := s.Lset().String()
+			i, ok := byKey[k]
+			if !ok {
+				byKey[k] = len(out)
+				out = append(out, core.Series{Labels: s.Labels, Samples: append([]core.Sample(nil), s.Samples...)})
+				continue
+			}
+			out[i].Samples = append(out[i].Samples, s.Samples...)
+		}
+	}
+	for i := range out {
+		smp := out[i].Samples
+		sort.SliceStable(smp, func(a, b int) bool { return smp[a].T < smp[b].T })
+	}
+	return out
 }
